@@ -34,7 +34,7 @@ PROPS["C07"] = {
         {"dir": "types",
          "quick": ["VP_C07_DecodedSetTotal", "VP_C07_NilVotesCommitNothing", "VP_C07_Verify_n1", "VP_C07_Verify_n2", "VP_C07_Verify_n2_extra", "VP_C07_Trusting_n1_m1", "VP_C07_Trusting_n2_m1",
                    "VP_C07_TrustLevelGuards", "VP_C07_SignBytesInjective_small", "VP_C07_Repeat_n2_m2", "VP_C07_Repeat_n3_m2"],
-         "thorough": ["VP_C07_Verify_n3", "VP_C07_Repeat_n4_m3", "VP_C07_Trusting_n2_m2", "VP_C07_Trusting_n3_m2", "VP_C07_SignBytesInjective_full"]},
+         "thorough": ["VP_C07_Verify_n3", "VP_C07_Repeat_n4_m3", "VP_C07_Trusting_n2_m2", "VP_C07_Trusting_n3_m2"]},
     ],
     "bounds": {
         "validators": "n = 1..2 (thorough 3) validators with fully symbolic 64-bit powers (1 <= p, sum <= MaxTotalVotingPower, so totals near 2^60 are inside); real ed25519 keys",
